@@ -196,3 +196,12 @@ MUTANTS += [
     dict(prop="C10", name="Nyquist cap removed", file="io/crowsetta/bbox.py", old="    high_freq = min(high_freq, nyquist_freq)\n", new=""),
     dict(prop="C10", name="select_by_key keyword clash again (original defect)", file=CL, old='        return label_from_tag(tag, **{**kwargs, "value_only": True})', new="        return label_from_tag(tag, value_only=True, **kwargs)"),
 ]
+EM = "evaluation/match.py"
+MUTANTS += [
+    dict(prop="C07", name="zero-affinity pairs matched again (original defect)", file=EM, old="        if cost_matrix[row, column] <= 0:\n            continue\n\n", new=""),
+    dict(prop="C07", name="reported affinity of the transposed cell", file=EM, old="            affinity = float(cost_matrix[match1, match2])", new="            affinity = float(cost_matrix[match2, match1]) if match2 < cost_matrix.shape[0] and match1 < cost_matrix.shape[1] else float(cost_matrix[match1, match2])"),
+    dict(prop="C07", name="assignment minimises", file=EM, old="        cost_matrix,\n        maximize=True,", new="        cost_matrix,\n        maximize=False,"),
+    dict(prop="C07", name="unmatched columns not reported", file=EM, old="    for column in cols:\n        yield None, column\n", new=""),
+    dict(prop="C07", name="matched row reported again as unmatched", file=EM, old="        rows.remove(row)\n", new=""),
+    dict(prop="C07", name="threshold 0.5 for pairing", file=EM, old="        if cost_matrix[row, column] <= 0:", new="        if cost_matrix[row, column] <= 0.5:"),
+]
